@@ -674,7 +674,8 @@ class _Exec:
                 self.callbacks[key] = cb
             if it["call"]:
                 if it["kind"] == "scheduled":
-                    self.callbacks[key](world.now + 0.2 + 0.001 * len(inp.queued_scheduled_events))
+                    self.nsched = getattr(self, "nsched", 0) + 1
+                    self.callbacks[key](world.now + 0.2 + 0.001 * self.nsched)
                 else:
                     self.callbacks[key]()
             return
